@@ -399,6 +399,51 @@ pub fn run(ctx: &Ctx) -> i32 {
             ctx.sample("universe B case", json!({"tree": tree.show(), "methods": ["full", "sampled", "external"], "params": "5 presets, None, 6 tuples", "iters": budgets_b}));
         }
     });
+    // universe C: the multi-threaded implementations (real pool, public entry point) against the
+    // specification, on games large enough for the public task target to split the tree
+    {
+        let mut games_c: Vec<(String, Tree)> = super::c06::collision_games();
+        for (k, d) in [(2usize, 4usize), (2, 5), (2, 6), (3, 3), (3, 4)] {
+            games_c.push((format!("kary_{}_{}", k, d), crate::universe::kary_alternating(k, d)));
+        }
+        games_c.push(("kuhn".into(), crate::universe::kuhn()));
+        crate::framework::par_for_each(&games_c, 1, |gi, (_, tree)| {
+            let game = match build(tree) {
+                Ok(g) => g,
+                Err(_) => return,
+            };
+            let al = match align(tree, &game) {
+                Ok(al) => al,
+                Err(_) => return,
+            };
+            for method in METHODS {
+                for spec in [ParamSpec::Preset(3), ParamSpec::Preset(1), ParamSpec::Preset(2)] {
+                    for iters in [3u64, 10] {
+                        for threads in [2usize, 3] {
+                            let fallback = Fallback::Hash(crate::explore::mix(ctx.seed ^ gi as u64));
+                            let decider = Pinned::new(BTreeMap::new(), fallback);
+                            let res = {
+                                let _gate = crate::multi::POOL_GATE.lock().unwrap_or_else(|e| e.into_inner());
+                                guarded(|| run_impl(tree, &game, method, iters, 0.0, threads, None, spec.implementation(), &decider))
+                            };
+                            let log = decider.take_log();
+                            let mut replay = case_json(tree, method, spec, iters, fallback, &log);
+                            replay["threads"] = json!(threads);
+                            let verdict = match res {
+                                Ok(Ok(out)) => compare(ctx, tree, method, spec, iters, &out, &log, &al, &replay),
+                                Ok(Err(msg)) | Err(msg) => {
+                                    ctx.violation("run-failed", &format!("{} [{} {} T={} threads={}] on {}", msg, method_name(method), spec.to_json(), iters, threads, tree.show()), replay);
+                                    Verdict::Violation
+                                }
+                            };
+                            tally(ctx, &verdict, true);
+                            ctx.count("multi_threaded_runs_against_the_specification", 1);
+                        }
+                    }
+                }
+            }
+        });
+    }
     ctx.assume("ties in the +-inf fallback and regret sums within 1e-9 of zero are discontinuities of regret matching: a run that differs from the specification there is counted as ill-conditioned, not as a violation");
     ctx.assume("infosets never reached with positive own weight may carry any distribution");
     ctx.assume("hash-pinned histories are a finite replayable selection, not an enumeration; the exhaustively enumerated histories are counted separately (histories_explored_exhaustively)");
